@@ -19,3 +19,33 @@ def docName (param : Option String) (svc : String) : String := svc ++ ".openapi.
 def docNames (param : Option String) (services : List String) : List String := services.map (docName param)
 
 end Sebuf.OaEmit
+
+namespace Sebuf.OaEmit
+/-! ### the JSON rendering re-reads the YAML text with a YAML 1.1 library
+
+`Render` for `format=json` marshals the document to YAML (go.yaml.in/yaml/v4, which leaves
+YAML-1.1-only booleans unquoted) and converts that text with `sigs.k8s.io/yaml`, a YAML 1.1
+reader. The tables below are the YAML 1.1 plain scalars that a YAML 1.2 reader keeps as strings
+(library behaviour, checked against the real renderings by the correspondence). -/
+
+/-- YAML 1.1 booleans that are NOT YAML 1.2 core-schema booleans. -/
+def yaml11OnlyBool : List (String × Bool) :=
+  [("y", true), ("Y", true), ("yes", true), ("Yes", true), ("YES", true), ("on", true), ("On", true), ("ON", true),
+   ("n", false), ("N", false), ("no", false), ("No", false), ("NO", false), ("off", false), ("Off", false), ("OFF", false)]
+
+def yaml11Bool (s : String) : Option Bool := (yaml11OnlyBool.find? (·.1 == s)).map (·.2)
+
+/-- the key a property named `k` has in the JSON rendering. -/
+def jsonRenderKey (k : String) : String :=
+  match yaml11Bool k with
+  | some true => "true"
+  | some false => "false"
+  | none => k
+
+/-- untagged plain scalars that are non-finite floats: `json.Marshal` fails on them, the plugin panics. -/
+def yamlNonFinite : List String :=
+  [".nan", ".NaN", ".NAN", ".inf", ".Inf", ".INF", "+.inf", "+.Inf", "+.INF", "-.inf", "-.Inf", "-.INF"]
+
+def jsonRenderCrashes (untaggedScalars : List String) : Bool := untaggedScalars.any (yamlNonFinite.contains ·)
+
+end Sebuf.OaEmit
